@@ -279,7 +279,7 @@ pub fn record(corpus_dir: &str, patterns_file: &str, mode: &str, per_program: us
                 }
                 let inj = gaps.iter().enumerate().all(|(j, g)| j == 0 || j == n || g.iter().map(|c| atom_lf(*c)).sum::<usize>() >= 1);
                 trace.push(&json!({"k": "layout", "src": name, "variant": vname, "n": n, "inj": inj, "gaps": gaps, "inner": inner, "dets": drecs}));
-                texts.push(&json!({"src": name, "variant": vname, "text": text}));
+                texts.push(&json!({"src": name, "variant": vname, "text": text, "canon": canon}));
                 // constructs that span several lines in this layout: the reported lines must still be lines on which
                 // a matching construct BEGINS (Patterns.tla on the projected tree of the re-laid-out text)
                 if !injective && i < 6 {
@@ -318,7 +318,7 @@ pub fn record(corpus_dir: &str, patterns_file: &str, mode: &str, per_program: us
                         out.evaluations += 1;
                         let inj2 = gaps2.iter().enumerate().all(|(j, g)| j == 0 || j == n || g.iter().map(|c| atom_lf(*c)).sum::<usize>() >= 1);
                         trace.push(&json!({"k": "layout", "src": name, "variant": format!("{}-twin", vname), "n": n, "inj": inj2, "gaps": gaps2, "inner": inner, "dets": drecs2}));
-                        texts.push(&json!({"src": name, "variant": format!("{}-twin", vname), "text": text2}));
+                        texts.push(&json!({"src": name, "variant": format!("{}-twin", vname), "text": text2, "canon": canon}));
                     }
                 }
                 if out.samples.len() < 2 && i == 3 {
@@ -330,6 +330,29 @@ pub fn record(corpus_dir: &str, patterns_file: &str, mode: &str, per_program: us
     out.set("relayouts_discarded_unparseable", json!(discarded));
     out.set("programs", json!(programs));
     out.set("patterns_used", json!(used.len()));
+}
+
+/// Replay of one layout case: the flag tokens are taken again from the one-token-per-line text and the lines from
+/// the re-laid-out text, by the real detector; the record (same gaps) goes to TV_C02.
+pub fn replay_case(case: &Value, trace: &mut NdjsonWriter, out: &mut Outcome) {
+    let (canon, text, det) = (case["canon"].as_str().unwrap_or(""), case["source"].as_str().unwrap_or(""), case["detector"].as_str().unwrap_or(""));
+    let d = match crate::detectors::by_name(det) {
+        Some(d) => d,
+        None => {
+            out.tool_error(format!("replay: unknown detector {}", det));
+            return;
+        }
+    };
+    out.evaluations += 1;
+    match (d.run(canon), d.run(text)) {
+        (Ok(f), Ok(rep)) => {
+            let f: Vec<i32> = f.into_iter().collect();
+            let rep: Vec<i32> = rep.into_iter().collect();
+            trace.push(&json!({"k": "layout", "src": "replay", "variant": "replay", "n": case["n"], "inj": case["inj"], "gaps": case["gaps"],
+                               "inner": case.get("inner").cloned().unwrap_or(json!([])), "dets": [{"d": det, "F": f, "rep": rep}]}));
+        }
+        _ => out.violate("layout-replay-panic", format!("{} panicked on the recorded texts", det), case.clone()),
+    }
 }
 
 /// Direct replay of TLC-generated (text, offset, line) triples into get_line_number.
